@@ -61,8 +61,8 @@ def _list_slice(slize: Slice) -> List[Slice]:
     """Internal recursive helper for `resolve_slice`.
     Returns a list of Slices in which each element has a concrete Signal for its parent."""
 
-    # Resolve "full-width" slices to their parent Signals
-    if width(slize) == width(slize.parent):
+    # Resolve "full-width", forward-ordered slices to their parent Signals
+    if slize.step > 0 and width(slize) == width(slize.parent):
         # Return a single-element list, after resolution
         return [_resolve_sliceable(slize.parent)]
 
@@ -75,7 +75,12 @@ def _list_slice(slize: Slice) -> List[Slice]:
 
         if isinstance(slize.parent, Slice):
             parent = slize.parent  # Note this is also a Slice
-            return _list_slice(parent.parent[parent.bot + slize.bot])
+            # Index of our bit, in the parent's parent
+            if parent.step < 0:
+                idx = parent.top - 1 + slize.bot * parent.step
+            else:
+                idx = parent.bot + slize.bot * parent.step
+            return _list_slice(parent.parent[idx])
 
         if isinstance(slize.parent, Concat):
             idx = 0  # Find the `part` including our index
@@ -90,10 +95,11 @@ def _list_slice(slize: Slice) -> List[Slice]:
 
     # Otherwise recurse in something like a "cons" pattern, splitting between the first bit and the rest.
     step = slize.step
-    if step < 0:  # Negative step, begin from `top`
-        first = _list_slice(slize.parent[slize.top])
-        rest = slize.parent[slize.top + step : slize.bot : step]
-        rest = _list_slice(rest)
+    if step < 0:  # Negative step, begin from the bit below `top`
+        first = _list_slice(slize.parent[slize.top - 1])
+        # `bot` is inclusive. Note a literal `-1` stop-index would wrap around.
+        stop = slize.bot - 1 if slize.bot > 0 else None
+        rest = _list_slice(slize.parent[slize.top - 1 + step : stop : step])
 
     else:  # Positive step, begin from `bot`
         first = _list_slice(slize.parent[slize.bot])
@@ -139,33 +145,15 @@ def _resolve_concat(conc: Concat) -> Concat:
     if not len(conc.parts):
         raise RuntimeError("Concatenation with no parts")
 
-    if all(_flat_concatable(p) for p in conc.parts):
-        return Concat(*[_resolve_sliceable(p) for p in conc.parts])
-
-    if isinstance(conc.parts[0], Concat):
-        # Recursively cover the first element, and all others
-        first = _resolve_concat(conc.parts[0])
-        rest = _resolve_concat(Concat(*conc.parts[1:]))
-        return Concat(*(first.parts + rest.parts))
-
-    if isinstance(conc.parts[0], Slice):
-        # Resolve everything within the Slice to a list of concrete-Signal slices
-        first = _resolve_slice(conc.parts[0])
-        # Pass everything else recursively back to this method
-        rest = _resolve_concat(Concat(*conc.parts[1:]))
-        # And concatenate the two
-        return Concat(*(first + rest.parts))
-
-    # Otherwise peel off as many Signals and concrete-Signal Slices as we can
-    for idx in range(len(conc.parts)):
-        if _flat_concatable(conc.parts[idx]):
-            continue
-        # Hit our first "compound" entry. Split the list here.
-        first = conc.parts[:idx]
-        rest = _resolve_concat(Concat(*conc.parts[idx:]))
-        return Concat(*(first + rest.parts))
-
-    raise RuntimeError("Unable to resolve concatenation")
+    # Resolve each part, splicing in the parts of any that resolve to (flat) `Concat`s
+    parts = []
+    for part in conc.parts:
+        resolved = _resolve_sliceable(part)
+        if isinstance(resolved, Concat):
+            parts.extend(resolved.parts)
+        else:
+            parts.append(resolved)
+    return Concat(*parts)
 
 
 def _resolve_ref(ref: Union[PortRef, BundleRef]) -> Sliceable:
